@@ -318,3 +318,38 @@ Proof.
   unfold py_shl. rewrite <- Z.shiftl_shiftl by lia. rewrite <- Z.shiftl_lor.
   rewrite lor_add_disjoint by lia. rewrite lor_add_disjoint by lia. reflexivity.
 Qed.
+
+(* ------------------------------------------------------------------ FixedPoint.toFloatingPoint: the numerator over 2^fw *)
+Lemma lxor_mask v w : 0 <= w -> 0 <= v < 2 ^ w -> Z.lxor v (2 ^ w - 1) = 2 ^ w - 1 - v.
+Proof.
+  intros Hw Hv. replace (2 ^ w - 1) with (Z.ones w) by (rewrite Z.ones_equiv; lia).
+  assert (L : Z.land v (Z.lxor v (Z.ones w)) = 0).
+  { apply Z.bits_inj'; intros i Hi. rewrite Z.land_spec, Z.lxor_spec, Z.bits_0.
+    destruct (Z.ltb_spec i w) as [Li | Gi].
+    - rewrite Z.ones_spec_low by lia. destruct (Z.testbit v i); reflexivity.
+    - rewrite <- (Z.mod_small v (2 ^ w)) by lia. rewrite Z.mod_pow2_bits_high by lia. reflexivity. }
+  pose proof (Z.add_nocarry_lxor _ _ L) as A.
+  rewrite <- Z.lxor_assoc, Z.lxor_nilpotent, Z.lxor_0_l in A. lia.
+Qed.
+
+Lemma toFloat_num_signed iw fw v : 0 <= iw -> 0 <= fw -> 0 <= v < 2 ^ (1 + iw + fw) ->
+  FixedPoint_toFloat_num 1 iw fw v = c2_decode (1 + iw + fw) v.
+Proof.
+  intros Hi Hf Hv. unfold FixedPoint_toFloat_num, c2_decode. set (w := 1 + iw + fw) in *.
+  assert (Hw : 1 <= w) by (unfold w; lia).
+  rewrite Z.mod_small by lia. change (Z.land (py_shr v (iw + fw)) 1) with (bitZ v (iw + fw)).
+  rewrite bitZ_b2z by lia. replace (iw + fw) with (w - 1) by (unfold w; lia). rewrite testbit_high by lia.
+  pose proof (pow2_split w ltac:(lia)) as Hs. pose proof (pow2_pos (w - 1) ltac:(lia)) as Hp.
+  unfold sgn. destruct (Z.leb_spec (2 ^ (w - 1)) v) as [G | L]; cbn [b2z Z.eqb Pos.eqb].
+  - destruct (Z.ltb_spec v (2 ^ (w - 1))); [lia|]. cbv zeta. rewrite shl1 by lia.
+    rewrite lxor_mask by lia. change (Z.land ?x (2 ^ w - 1)) with (Z.land x (2 ^ w - 1)).
+    rewrite land_pm1 by lia. rewrite Z.mod_small by lia. lia.
+  - destruct (Z.ltb_spec v (2 ^ (w - 1))); [reflexivity | lia].
+Qed.
+
+Lemma toFloat_num_unsigned iw fw v : 0 <= iw -> 0 <= fw -> 0 <= v < 2 ^ (iw + fw) ->
+  FixedPoint_toFloat_num 0 iw fw v = v.
+Proof.
+  intros Hi Hf Hv. unfold FixedPoint_toFloat_num. unfold py_shr. rewrite shiftr_div by lia.
+  rewrite Z.div_small by lia. reflexivity.
+Qed.
